@@ -25,7 +25,13 @@ for name,fn,haspc in subs:
   simp only [LWf, BeginWf] at g w
   unfold {fn} at hs
   conc_split hs
-  all_goals (goal_simp; grind)'''
+  all_goals (
+    by_cases hba : b = a
+    · subst hba; (try goal_simp); grind
+    · (try simp only [State.put, State.putS, State.finish, State.write, upd_apply, if_neg hba])
+      first
+      | exact g
+      | ((try goal_simp); grind))'''
     out+=thm("lwf",name,fn,haspc,"(inv1 : Inv1 s) (g1 : Lwf s)","Lwf s'",body)
 # F2 Rng
 for name,fn,haspc in subs:
@@ -34,7 +40,15 @@ for name,fn,haspc in subs:
   clear g1
   unfold {fn} at hs
   conc_split hs
-  all_goals (goal_simp; simp only [State.put, State.putS, State.finish, State.write] at hb; grind)'''
+  all_goals (
+    by_cases hba : b = a
+    · subst hba
+      simp only [State.put, State.putS, State.finish, State.write] at hb
+      exact absurd hle (Nat.not_le_of_gt hb)
+    · (try simp only [State.put, State.putS, State.finish, State.write, upd_apply, if_neg hba])
+      first
+      | exact g hb
+      | (goal_simp; simp only [State.put, State.putS, State.finish, State.write] at hb; grind))'''
     out+=thm("rng",name,fn,haspc,"(hle : a ≤ s.n) (g1 : Rng s)","Rng s'",body)
 # F3 Bnd
 for name,fn,haspc in subs:
@@ -48,10 +62,26 @@ for name,fn,haspc in subs:
   conc_split hs
   all_goals (
     refine ⟨?_, fun b => ?_, fun b => ?_, ?_⟩
-    · goal_simp; grind
-    · have b2b := b2 b; goal_simp; grind
-    · have b3b := b3 b; goal_simp; grind
-    · goal_simp; grind)'''
+    · first
+      | exact b1
+      | (clear b2 b3; goal_simp; grind)
+    · have b2b := b2 b
+      by_cases hba : b = a
+      · subst hba; clear b2 b3; (try goal_simp); grind
+      · (try simp only [State.put, State.putS, State.finish, State.write, upd_apply, if_neg hba])
+        first
+        | exact b2b
+        | (clear b2 b3; (try goal_simp); grind)
+    · have b3b := b3 b
+      by_cases hba : b = a
+      · subst hba; clear b2 b3; (try goal_simp); grind
+      · (try simp only [State.put, State.putS, State.finish, State.write, upd_apply, if_neg hba])
+        first
+        | exact b3b
+        | (clear b2 b3; (try goal_simp); grind)
+    · first
+      | exact b4
+      | (clear b2 b3; goal_simp; grind))'''
     out+=thm("bnd",name,fn,haspc,"(lw : Lwf s) (g1 : Bnd s)","Bnd s'",body)
 out+="\nend Lungo.Conc\n"
 open(os.path.join(os.path.dirname(os.path.abspath(__file__)),'..','Lungo','Proofs')+'/ConcOwn.lean','w').write(out)
